@@ -7,7 +7,7 @@
                                  to a scratch copy of /repo and must be reported as a VIOLATION
                                  of its property by the quick check; /repo is never touched
 
-Results go to /verif/evidence/selftest-*.json.
+Results go to /verif/selftest/{determinism,sensitivity}.json (not under evidence/, which holds one schema-valid file per claimed property).
 """
 from __future__ import annotations
 
@@ -47,7 +47,7 @@ def determinism(tier, seed):
             out[prop] = {"exit": code, "wall_s": round(time.monotonic() - t0, 1), "determinism": ev, "tail": text.strip().splitlines()[-2:]}
             print("%s exit=%d seeds=%s comparisons=%s mismatches=%s" % (prop, code, ev.get("seeds"), ev.get("comparisons"), len(ev.get("mismatches", [])) if ev else "?"))
             ok = ok and code == 0 and ev and not ev.get("mismatches")
-    with open(os.path.join(VERIF, "evidence", "selftest-determinism.json"), "w") as fh:
+    with open(os.path.join(VERIF, "selftest", "determinism.json"), "w") as fh:
         json.dump({"tier": tier, "seed": seed, "worlds": out, "ok": bool(ok)}, fh, indent=1, sort_keys=True)
     return 0 if ok else 2
 
@@ -86,13 +86,14 @@ def sensitivity(tier, seed, only=None):
         sys.stdout.flush()
         if code != 1:
             missed.append(name)
-    with open(os.path.join(VERIF, "evidence", "selftest-sensitivity.json"), "w") as fh:
+    with open(os.path.join(VERIF, "selftest", "sensitivity.json"), "w") as fh:
         json.dump({"tier": tier, "seed": seed, "mutants": results, "missed": missed}, fh, indent=1, sort_keys=True)
     print("sensitivity: %d mutants, %d detected, missed: %s" % (len(results), len(results) - len(missed), missed))
     return 0 if not missed else 1
 
 
 def main(which, tier, seed):
+    os.makedirs(os.path.join(VERIF, "selftest"), exist_ok=True)
     if which == "selftest-determinism":
         return determinism(tier, seed)
     if which == "selftest-sensitivity":
